@@ -1,4 +1,5 @@
 from check import Prop
+import vlib
 
 
 class C36(Prop):
@@ -7,7 +8,7 @@ class C36(Prop):
     drivers = [dict(pkg="internal/metrics", test="TestVerifC36")]
     n_quick = 150
     n_thorough = 8000
-    shard = 15
+    shard = 40
     ready = True
     rule = ("the real onMetrics handler with stub path manager / WebRTC server returning generated entities (0-3 paths with "
             "readers, 0-2 sessions) whose names, paths and remote addresses are client-style strings: quotes, backslashes, "
@@ -28,6 +29,18 @@ class C36(Prop):
              "parsed in Coq and compared with the entities on every run.",
         note="Genuine defect fixed in /repo (5f31f76: label values were not escaped). Float samples are opaque tokens.",
         technique="Coq proof (parser/printer inverse by induction on label lists and lines) + correspondence by vm_compute")
+
+
+    def evaluate(self, ctx, cases):
+        # the driver's first record defines, once per cases file, the field names and metric names of every entity
+        # kind (the cases only carry values)
+        pre = "".join((c.get("desc") or {}).get("preamble", "") for c in cases if not c.get("coq"))
+        old = vlib.CASES_HEADER
+        vlib.CASES_HEADER = old + pre.replace("%", "%%")
+        try:
+            return Prop.evaluate(self, ctx, cases)
+        finally:
+            vlib.CASES_HEADER = old
 
 
 PROP = C36()
